@@ -243,7 +243,9 @@ func hostileRequests(r *rng, n int) []hreq {
 	// that succeeds, on one that fails (error replies are negotiated too) and on an upload
 	var elems []string
 	for _, t := range []string{"application/json", "*/*", "application/*", "gzip", "identity", "text/html", "", "a", "/"} {
-		for _, pm := range []string{"", ";", "; ", ";q", ";q=", ";q=1", ";Q=0.5", ";q=0", ";q=1;", ";x", ";=", "; q = 1", ";q=1;q", ";;", ";q=\xff", ";qq"} {
+		for _, pm := range []string{"", ";", "; ", ";q", ";q=", ";q=1", ";Q=0.5", ";q=0", ";q=1;", ";x", ";=", "; q = 1", ";q=1;q", ";;", ";q=\xff", ";qq",
+			// media type parameters (RFC 9110 8.3.1): token and quoted-string values, before and after a weight, comments
+			";charset=utf-8", ";charset=\"utf-8\"", ";charset=\"utf-8\";q=0.9", ";q=0.9;charset=\"utf-8\"", ";level=1 (preferred)", ";a=\"x,y\"", ";a=\"x\\\"y\"", ";a=\"", ";a=b=c", ";a=(", ";a=[1]"} {
 			elems = append(elems, t+pm)
 		}
 	}
